@@ -564,11 +564,12 @@ func (s *socket) Close(discard bool) {
 		return
 	}
 
-	if s.ReadyState() != "open" {
+	// test and set in one step: a close cause that fires in between (ping timeout, transport
+	// error) must not have its 'closed' overwritten by 'closing'
+	if !s.readyState.CompareAndSwap("open", "closing") {
 		return
 	}
-
-	s.SetReadyState("closing")
+	socket_log.Debug("readyState updated from %s to %s", "open", "closing")
 
 	if length := s.writeBuffer.Len(); length > 0 {
 		socket_log.Debug("there are %d remaining packets in the buffer, waiting for the 'drain' event", length)
